@@ -55,7 +55,7 @@ func init() { props["C15"] = runC15 }
 type ioTree struct {
 	dir   bool
 	size  int
-	where byte // 0, 'b', 'l', 'x'
+	where byte // 0, 'b', 'l', 'x'; 'k' = directory in the layer over a regular file of the base
 	kids  []ioKid
 }
 type ioKid struct {
@@ -302,7 +302,10 @@ func (si *ioStackInfo) setup(t *ioTree) []string {
 	for _, l := range si.leaves {
 		var rec func(t *ioTree, vp string)
 		rec = func(t *ioTree, vp string) { // vp = io/fs path of the node
-			on := l.role == 0 || t.where == 'x' || t.where == l.role || t.where == 0
+			on := l.role == 0 || t.where == 'x' || t.where == l.role || t.where == 0 || (t.where == 'k' && l.role == 'l')
+			if t.where == 'k' && l.role == 'b' {
+				on = true
+			}
 			if !on {
 				return
 			}
@@ -325,6 +328,13 @@ func (si *ioStackInfo) setup(t *ioTree) []string {
 				if len(data) > 0 {
 					emit(l, "-", "HWrite %d %s", slot, hx(data))
 				}
+				emit(l, "-", "HClose %d", slot)
+				slot++
+				return
+			}
+			if t.where == 'k' && l.role == 'b' {
+				emit(l, fmt.Sprint(slot), "OpenFile %s 578 420", hx([]byte(mp)))
+				emit(l, "-", "HWrite %d %s", slot, hx([]byte("a file in the base")))
 				emit(l, "-", "HClose %d", slot)
 				slot++
 				return
@@ -1323,6 +1333,11 @@ func ioPlace(r *Rng, t *ioTree, root bool) {
 			t.where = 'b'
 		default:
 			t.where = 'l'
+		}
+		if t.where == 'l' && !root && r.Chance(1, 3) {
+			// kind conflict: the layers were filled separately and the base has a regular FILE of this
+			// name; the overlay's directory is what the union shows
+			t.where = 'k'
 		}
 	}
 	if root {
